@@ -39,8 +39,9 @@ M521 = 2 ** 521 - 1
 SMALLP = (3, 5, 7, 11, 13, 17, 19, 23, 29, 31, 37, 41, 43, 47, 53)
 
 
-def tape_val(seed, x, i):
-    return ((((seed + x) * (2 * i + 1) * 2654435761 + i) ** 2) + x * i) % M521
+def tape_val(seed, x, i, M):
+    b = (seed + x) * (2 * i + 1) * 2654435761 + i
+    return ((b * b + x * i) >> 7) & M
 
 
 class TapeRandom:
@@ -544,48 +545,56 @@ def run(ctx):
 
     # ---------------- is_prime / next_prime / prev_prime (exhaustive, generated tapes)
     sieve = [o_is_prime_small(x) for x in range(0, U + 200)]
+    MS, MB = (1 << 20) - 1, (1 << 300) - 1     # tape masks for small / large arguments
 
-    def tapefn(x):
-        return lambda i: tape_val(seed, x, i)
+    def tapefn(x, M):
+        return lambda i: tape_val(seed, x, i, M)
+
+    def add_range(fmt, lo, vals, pieces):
+        """fmt with @ := 'zrange ..' evaluated over [lo, lo+len(vals)) in `pieces` separate expressions."""
+        n = len(vals)
+        step = -(-n // pieces)
+        for i in range(0, n, step):
+            exprs.append(fmt.replace('@', '(zrange %s %s)' % (zlit(lo + i), natlit(min(step, n - i)))))
+            expect.append(vals[i:i + step])
+
+    def add_list(fmt, items, vals, per):
+        for i in range(0, len(items), per):
+            exprs.append(fmt.replace('@', '[%s]' % '; '.join(items[i:i + per])))
+            expect.append(vals[i:i + per])
 
     rip, rnp, rpp = [], [], []
     for x in range(LO, U + 1):
-        gmpy.random = T = TapeRandom(fn=tapefn(x))
+        gmpy.random = T = TapeRandom(fn=tapefn(x, MS))
         r = gmpy.is_prime(x)
         rip.append((bool(r), T.pos))
         if bool(r) != (x >= 0 and sieve[x]):
             viol('is_prime x=%d' % x, {'f': 'is_prime', 'x': x, 'got': r, 'seed': seed})
         ctx.case(['is_prime', x, seed], nontrivial=x > 2 and x % 2 == 1, kind='is_prime range')
-        gmpy.random = T = TapeRandom(fn=tapefn(x))
+        gmpy.random = T = TapeRandom(fn=tapefn(x, MS))
         r = call(gmpy.next_prime, x)
         rnp.append((r, T.pos))
         want = next(q for q in range(max(x + 1, 0), U + 200) if sieve[q])
         if r != ('Ok', want):
             viol('next_prime x=%d' % x, {'f': 'next_prime', 'x': x, 'got': r, 'want': want, 'seed': seed})
-        gmpy.random = T = TapeRandom(fn=tapefn(x))
+        gmpy.random = T = TapeRandom(fn=tapefn(x, MS))
         r = call(gmpy.prev_prime, x)
         rpp.append((r, T.pos))
         want = ('Ok', next(q for q in range(x - 1, 1, -1) if sieve[q])) if x >= 3 else 'EValue'
         if r != want:
             viol('prev_prime x=%d' % x, {'f': 'prev_prime', 'x': x, 'got': r, 'want': want, 'seed': seed})
         ctx.case(['next_prime', x, seed], nontrivial=x > 1, kind='next/prev_prime range')
-    n_un = U + 1 - LO
-    TL = 400      # tape length generated on the Coq side (draws beyond it are 0 on both sides; never reached here)
-    assert max(p for _, p in rip + rnp + rpp) <= TL
-    exprs.append('map (run_is_prime %s %s) (zrange %s %s)' % (zlit(seed), natlit(30), zlit(LO), natlit(n_un)))
-    expect.append(rip)
-    exprs.append('map (run_next_prime 200 %s %s) (zrange %s %s)' % (zlit(seed), natlit(TL), zlit(LO), natlit(n_un)))
-    expect.append(rnp)
-    exprs.append('map (run_prev_prime 200 %s %s) (zrange %s %s)' % (zlit(seed), natlit(TL), zlit(LO), natlit(n_un)))
-    expect.append(rpp)
+    add_range('map (run_is_prime %s %s) @' % (zlit(MS), zlit(seed)), LO, rip, ctx.n(3, 12))
+    add_range('map (run_next_prime 200 %s %s) @' % (zlit(MS), zlit(seed)), LO, rnp, ctx.n(6, 40))
+    add_range('map (run_prev_prime 200 %s %s) @' % (zlit(MS), zlit(seed)), LO, rpp, ctx.n(6, 40))
     # structured / large: Carmichael numbers, strong pseudoprimes, Mersenne primes, products of two primes, random
     special = [561, 1105, 1729, 2047, 2465, 2821, 6601, 8911, 3215031751, 3825123056546413051, 318665857834031151167461,
-               2 ** 61 - 1, 2 ** 89 - 1, 2 ** 107 - 1, 2 ** 127 - 1, 2 ** 521 - 1, 2 ** 64 + 13, 2 ** 128 + 51,
+               2 ** 61 - 1, 2 ** 89 - 1, 2 ** 107 - 1, 2 ** 64 + 13, 2 ** 128 + 51,
                59 * 59, 59 * 61, 61 * 67, 3 * (2 ** 100 + 277), (2 ** 31 - 1) * (2 ** 61 - 1),
                1194649, 12327121, 4033, 4681, 5461, 15841, 29341, 52633, 65281, 74665, 90751]
     cases = list(special)
     for _ in range(NR):
-        b = rng.choice([64, 80, 128, 160, 256, 512])
+        b = rng.choice(ctx.n([64, 80, 96, 128], [64, 80, 128, 160, 256]))
         k = rng.randrange(4)
         if k == 0:
             cases.append(gen_prime(b))
@@ -596,7 +605,7 @@ def run(ctx):
             cases.append(p * p)
         else:
             cases.append(big(b) | 1)
-    tapes = [[rng.getrandbits(rng.choice([8, 64, 600])) for _ in range(25)] for _ in cases]
+    tapes = [[rng.getrandbits(rng.choice([8, 64, 300])) for _ in range(25)] for _ in cases]
     rs = []
     for x, tp in zip(cases, tapes):
         gmpy.random = T = TapeRandom(lst=tp)
@@ -605,24 +614,25 @@ def run(ctx):
         if bool(r) != o_is_prime(x):
             viol('is_prime big', {'f': 'is_prime', 'x': x, 'tape': tp, 'got': r})
         ctx.case(['is_prime', x, tp[:3]], nontrivial=True, kind='is_prime big/special')
-    exprs.append('map (fun p => used (snd p) (is_prime (snd p) (fst p))) [%s]'
-                 % '; '.join('(%s, [%s]%%Z)' % (zlit(x), '; '.join(map(str, tp))) for x, tp in zip(cases, tapes)))
-    expect.append(rs)
-    # n = 0..3 rounds (is_prime_n) on the special numbers with a fixed base-2 tape: exhibits liars
+    add_list('map (fun p => used (is_prime (of_list (snd p)) (fst p))) @',
+             ['(%s, [%s]%%Z)' % (zlit(x), '; '.join(map(str, tp))) for x, tp in zip(cases, tapes)], rs, 5)
+    # n = 0, 1, 3 rounds (is_prime_n) with base 2 (tape of zeros): exhibits liars; large Mersenne primes with few rounds
+    few = [(x, n) for x in special[:12] for n in (0, 1, 3)] + [(2 ** 127 - 1, 5), (2 ** 521 - 1, 1), (2 ** 127 - 1, 0)]
     rs = []
-    for x in special[:12]:
-        for n in (0, 1, 3):
-            gmpy.random = T = TapeRandom(lst=[0] * n)
-            r = gmpy.is_prime(x, n)
-            rs.append((bool(r), T.pos))
-    exprs.append('flat_map (fun x => map (fun n => used (repeat 0%%Z n) (is_prime_n n (repeat 0%%Z n) x)) [0; 1; 3]%%nat) [%s]'
-                 % '; '.join(zlit(x) for x in special[:12]))
-    expect.append(rs)
+    for x, n in few:
+        gmpy.random = T = TapeRandom(lst=[0] * n)
+        r = gmpy.is_prime(x, n)
+        rs.append((bool(r), T.pos))
+        if not r and o_is_prime(x):       # fewer rounds may accept composites (liars); primes must still pass
+            viol('is_prime few rounds rejects prime', {'f': 'is_prime', 'x': x, 'n': n, 'got': r})
+        ctx.case(['is_prime_n', x, n], nontrivial=n > 0, kind='is_prime few rounds')
+    add_list('map (fun p => used (is_prime_n (snd p) (of_list []) (fst p))) @',
+             ['(%s, %s)' % (zlit(x), natlit(n)) for x, n in few], rs, 13)
     # next/prev on large arguments
-    big_np = [big(rng.choice([64, 100, 128, 256])) for _ in range(ctx.n(12, 60))]
+    big_np = [big(rng.choice(ctx.n([64, 65, 80, 100], [64, 100, 128, 200]))) for _ in range(ctx.n(10, 40))]
     rn, rp = [], []
     for x in big_np:
-        gmpy.random = T = TapeRandom(fn=tapefn(x))
+        gmpy.random = T = TapeRandom(fn=tapefn(x, MB))
         r = call(gmpy.next_prime, x)
         rn.append((r, T.pos))
         q = x + 1
@@ -630,7 +640,7 @@ def run(ctx):
             q += 1
         if r != ('Ok', q):
             viol('next_prime big', {'f': 'next_prime', 'x': x, 'got': r, 'want': q, 'seed': seed})
-        gmpy.random = T = TapeRandom(fn=tapefn(x))
+        gmpy.random = T = TapeRandom(fn=tapefn(x, MB))
         r = call(gmpy.prev_prime, x)
         rp.append((r, T.pos))
         q = x - 1
@@ -639,33 +649,28 @@ def run(ctx):
         if r != ('Ok', q):
             viol('prev_prime big', {'f': 'prev_prime', 'x': x, 'got': r, 'want': q, 'seed': seed})
         ctx.case(['next_prime', x, seed], nontrivial=True, kind='next/prev_prime big')
-    TLB = max([p for _, p in rn + rp] + [1]) + 5
-    exprs.append('map (run_next_prime 2000 %s %s) [%s]' % (zlit(seed), natlit(TLB), '; '.join(zlit(x) for x in big_np)))
-    expect.append(rn)
-    exprs.append('map (run_prev_prime 2000 %s %s) [%s]' % (zlit(seed), natlit(TLB), '; '.join(zlit(x) for x in big_np)))
-    expect.append(rp)
+    add_list('map (run_next_prime 3000 %s %s) @' % (zlit(MB), zlit(seed)), [zlit(x) for x in big_np], rn, 2)
+    add_list('map (run_prev_prime 3000 %s %s) @' % (zlit(MB), zlit(seed)), [zlit(x) for x in big_np], rp, 2)
 
     # ---------------- factor_prime_power
-    FU = ctx.n(3000, 20000)
-    rs, lens = [], []
+    FU = ctx.n(1200, 6000)
+    rs = []
     for x in range(-5, FU + 1):
-        gmpy.random = T = TapeRandom(fn=tapefn(x))
+        gmpy.random = T = TapeRandom(fn=tapefn(x, MS))
         r = call(gmpy.factor_prime_power, x)
         rs.append((r, T.pos))
-        lens.append(T.pos + 3)
         pp = o_prime_power(x)
         if r != (('Ok', pp) if pp else 'EValue'):
             viol('factor_prime_power x=%d' % x, {'f': 'factor_prime_power', 'x': x, 'got': r, 'want': pp, 'seed': seed})
         ctx.case(['factor_prime_power', x, seed], nontrivial=x > 1, kind='factor_prime_power range')
-    exprs.append('map (fun q => run_fpp 100 %s (snd q) (fst q)) [%s]'
-                 % (zlit(seed), '; '.join('(%s, %s)' % (zlit(x), natlit(n)) for x, n in zip(range(-5, FU + 1), lens))))
-    expect.append(rs)
+    add_range('map (run_fpp 100 %s %s) @' % (zlit(MS), zlit(seed)), -5, rs, ctx.n(12, 60))
     cases = []
-    for _ in range(ctx.n(30, 200)):
+    maxbits = ctx.n(420, 1400)
+    for _ in range(ctx.n(24, 160)):
         p = rng.choice([gen_prime(rng.choice([11, 12, 16, 20, 33, 64, 100])), rng.choice([1021, 1031, 1033, 2, 3, 1019])])
         d = rng.choice([1, 2, 3, 4, 5, 6, 7, 8, 9, 12, 15, 16, 25, 27, 30])
-        if p.bit_length() * d > 1400:
-            d = 2
+        if p.bit_length() * d > maxbits:
+            d = rng.choice([1, 2, 3])
         x = p ** d
         k = rng.randrange(6)
         if k == 0:
@@ -677,18 +682,15 @@ def run(ctx):
             cases.append(((q * q2) ** e, None if q != q2 else (q, 2 * e)))
         else:
             cases.append((x, (p, d)))
-    rs, lens = [], []
+    rs = []
     for x, want in cases:
-        gmpy.random = T = TapeRandom(fn=tapefn(x))
+        gmpy.random = T = TapeRandom(fn=tapefn(x, MB))
         r = call(gmpy.factor_prime_power, x)
         rs.append((r, T.pos))
-        lens.append(T.pos + 3)
         if r != (('Ok', want) if want else 'EValue'):
             viol('factor_prime_power big', {'f': 'factor_prime_power', 'x': x, 'got': r, 'want': want, 'seed': seed})
         ctx.case(['factor_prime_power', x, seed], nontrivial=True, kind='factor_prime_power big')
-    exprs.append('map (fun q => run_fpp 100 %s (snd q) (fst q)) [%s]'
-                 % (zlit(seed), '; '.join('(%s, %s)' % (zlit(x), natlit(n)) for (x, _), n in zip(cases, lens))))
-    expect.append(rs)
+    add_list('map (run_fpp 100 %s %s) @' % (zlit(MB), zlit(seed)), [zlit(x) for x, _ in cases], rs, 2)
     gmpy.random = _random
 
     # ---------------- ratrec
@@ -775,7 +777,7 @@ def run(ctx):
     # ---------------- model vs implementation
     ctx.log('%d implementation cases; evaluating %d model expressions in Coq' % (ctx.evaluations, len(exprs)))
     if ok:
-        res = ctx.coq_eval(['MPyC.Gmpy'], exprs, chunk=1, jobs=14)
+        res = ctx.coq_eval(['MPyC.Gmpy'], exprs, chunk=1, jobs=14, timeout=170)
         mism, ncmp = 0, 0
         for e, r, w in zip(exprs, res, expect):
             if isinstance(r, tuple) and r and r[0] == 'ERROR':
